@@ -120,6 +120,33 @@ def scenarios(tier):
         if step != 'filereplace':
             mk([[f'a.{ext}', bad_c], ['sub/', '']], f'a.{ext}', f'lnk.{ext}', {}, 'alias/symlink-badfmt')
             out[-1]['links'] = [[f'lnk.{ext}', f'a.{ext}', 'sym']]
+        # 1c. paths that still contain formatting in the pipeline: '{{k}}' is the file literally
+        #     named '{k}', a !sic path likewise; '{k}' is the file named after the context value.
+        #     The step formats its configuration exactly ONCE: the file named by that single pass
+        #     is rewritten, the look-alike ('V.ext' resp. '{k}.ext') is a bystander.
+        cl, el = content(step, 2)
+        cv, ev = content(step, 1, variant=2)
+        lit, dec = '{k}.' + ext, 'V.' + ext
+        both = [[lit, cl], [dec, cv], [f'a.{ext}', c], ['sub/', '']]
+        # (the configuration is formatted by code shared by all five steps: quick tier = two of them)
+        for label, vin, vin_cfg, vout, vout_cfg, exp in () if (
+                tier == 'quick' and step not in ('fileformat', 'fileformatjson')) else (
+                ('braces/escaped-single', lit, '{{k}}.' + ext, None, None, {lit: el}),
+                ('braces/sic-single', lit, {'sic': lit}, None, None, {lit: el}),
+                ('braces/expression-single', dec, lit, None, None, {dec: ev}),
+                ('braces/escaped-list', [lit, f'a.{ext}'], ['{{k}}.' + ext, f'a.{ext}'], None, None,
+                 {lit: el, f'a.{ext}': e}),
+                ('braces/sic-list', [f'a.{ext}', lit], [f'a.{ext}', {'sic': lit}], None, None,
+                 {lit: el, f'a.{ext}': e}),
+                ('braces/escaped-glob', '{k}*.' + ext, '{{k}}*.' + ext, None, None, {lit: el}),
+                ('braces/expression-glob', 'V*.' + ext, '{k}*.' + ext, None, None, {dec: ev}),
+                ('braces/escaped-out-same', lit, '{{k}}.' + ext, lit, '{{k}}.' + ext, {lit: el}),
+                ('braces/escaped-out-other', f'a.{ext}', f'a.{ext}', lit, '{{k}}.' + ext, None),
+                ('braces/sic-out-other', f'a.{ext}', f'a.{ext}', lit, {'sic': lit}, None)):
+            mk(list(both), vin, vout, exp, label)
+            out[-1]['in_cfg'] = vin_cfg
+            if vout_cfg is not None:
+                out[-1]['out_cfg'] = vout_cfg
         # 2. formatting failure at every item position
         if step != 'filereplace':
             for size in sizes[1:]:
